@@ -170,7 +170,7 @@ func c12Mutate(t *rapid.T, doc []byte) ([]byte, []string) {
 	n := rapid.IntRange(0, 4).Draw(t, "nmut")
 	for i := 0; i < n; i++ {
 		lines := bytes.SplitAfter(doc, []byte("\n"))
-		k := rapid.SampledFrom([]string{"del-line", "dup-line", "swap-lines", "truncate", "insert", "long-line", "only-blanks", "only-bullets", "sharp-run", "indent-first", "mix-indent", "replace-byte", "del-byte"}).Draw(t, "mut")
+		k := rapid.SampledFrom([]string{"del-line", "dup-line", "swap-lines", "truncate", "insert", "long-line", "only-blanks", "only-bullets", "sharp-run", "indent-first", "mix-indent", "replace-byte", "del-byte", "double-cr"}).Draw(t, "mut")
 		kinds = append(kinds, k)
 		li := 0
 		if len(lines) > 1 {
@@ -225,6 +225,17 @@ func c12Mutate(t *rapid.T, doc []byte) ([]byte, []string) {
 			if len(doc) > 0 {
 				doc = append([]byte{}, doc...)
 				doc[rapid.IntRange(0, len(doc)-1).Draw(t, "pos")] = rapid.Byte().Draw(t, "byte")
+			}
+		case "double-cr":
+			// a row that ends in CR before its CRLF/LF terminator (the name keeps one CR)
+			if idx := bytes.IndexByte(doc, '\n'); idx >= 0 {
+				nl := bytes.Count(doc, []byte("\n"))
+				k := rapid.IntRange(0, nl-1).Draw(t, "nlIndex")
+				pos := 0
+				for i := 0; i <= k; i++ {
+					pos += bytes.IndexByte(doc[pos:], '\n') + 1
+				}
+				doc = append(append(append([]byte{}, doc[:pos-1]...), '\r', '\r', '\n'), doc[pos:]...)
 			}
 		case "del-byte":
 			if len(doc) > 0 {
@@ -306,7 +317,7 @@ var c12Constants = []string{"", "\n", " ", "\t", "\r\n", "   \n\t\n", "-", "- ",
 	"a", "x - y", "\x00", "\xff\xfe", "- \x00", "- a\x00b\n  - c", "# a\n- b\n  - c\n# d\n- e", "\n\n- a\n\n  - b\n\n", "- a\r\n  - b\r\n", "- a\r  - b\r", "-a", "-  a", "- a\n - b\n  - c\n   - d",
 	"- a\n\t- b\n  - c", "- a\n  - b\n\t- c", "# a\n## b\n### c", "#a", "# #", "- #", "- a\n# b\n- c\n  - d", string(rune(0xFEFF)) + "- a\n  - b", "- a\n  - b\n - c", strings.Repeat("- a\n", 50),
 	strings.Repeat(" ", 70000), "- " + strings.Repeat("x", 70000), strings.Repeat("- a\n", 3) + "- " + strings.Repeat("y", 65536) + "\n- b\n", "- a\n" + strings.Repeat("  ", 40) + "- deep",
-	"- ..\n  - ..\n    - ..", "- /\n  - /", "- a\n  - ../../../x", "- .\n  - .", "- a/b", "-\t-\t-", "* + -", "+ * #", "- a\n  * b\n    + c\n  + d\n* e"}
+	"- a\r\r\n  - b\r\r\n- c\r\n", "# a\r\r\n- b\r\n", "- ..\n  - ..\n    - ..", "- /\n  - /", "- a\n  - ../../../x", "- .\n  - .", "- a/b", "-\t-\t-", "* + -", "+ * #", "- a\n  * b\n    + c\n  + d\n* e"}
 
 func TestC12Constants(t *testing.T) {
 	col := coll("C12", "constants")
